@@ -534,7 +534,8 @@ func handshake(a, b io.ReadWriter, seeds [2]int64, afterC2 func()) error {
 	if len(s0) != 1 || s0[0] != 3 || len(s1) != 1536 {
 		return fmt.Errorf("s0 = %x, s1 has %d bytes", s0, len(s1))
 	}
-	if !bytes.Equal(s2, c1) {
+	// RTMP 1.0 5.2.4: S2/C2 = the peer's time (4 bytes), time2 = when its packet was read (4 bytes, free), the echo of its random data
+	if len(s2) != 1536 || !bytes.Equal(s2[:4], c1[:4]) || !bytes.Equal(s2[8:], c1[8:]) {
 		return fmt.Errorf("s2 is not the echo of c1")
 	}
 	if err := ha.WriteC2S2(a, s1); err != nil {
@@ -545,7 +546,7 @@ func handshake(a, b io.ReadWriter, seeds [2]int64, afterC2 func()) error {
 	if err != nil {
 		return err
 	}
-	if !bytes.Equal(c2, s1) {
+	if len(c2) != 1536 || !bytes.Equal(c2[:4], s1[:4]) || !bytes.Equal(c2[8:], s1[8:]) {
 		return fmt.Errorf("c2 is not the echo of s1")
 	}
 	return nil
